@@ -4,12 +4,12 @@ import json, os
 ROOT = os.path.dirname(os.path.dirname(os.path.abspath(__file__)))
 REF = "trusts the mailbox reference model in harness/src/refmodel.rs (validated at start-up against published perft counts to depth 3-4 on ten positions) and the proptest generators' reach as reported in the evidence class histogram"
 C = {
- "C01": ("generated-position search: move multiset from generate_moves compared with a make-and-test reference move generator on millions of boards per run (DFRC starts, seed FENs, constructed castle/en-passant/pin/promotion/mate motifs, positions along histories with null moves), in the magic and the PEXT build; thorough enumerates all 960x960 start pairs. Sampling, not proof: absence of a defect outside the generated classes is not established.", REF, "proptest + enumeration vs reference move generator (differential)"),
+ "C01": ("generated-position search: move multiset from generate_moves compared with a make-and-test reference move generator on millions of boards per run (DFRC starts, seed FENs, constructed castle/en-passant/pin/promotion/mate/battery/crowded motifs, accepted near-invalid builder states, positions along histories with null moves), in the magic and the PEXT build; thorough enumerates all 960x960 start pairs. Sampling, not proof: absence of a defect outside the generated classes is not established.", REF, "proptest + enumeration vs reference move generator (differential)"),
  "C02": ("every reference-legal move of every visited position is played with play/try_play/play_unchecked and the successor compared field by field and as text with the reference successor (clocks at caps included). Sampling over positions, exhaustive over the moves of each.", REF, "proptest histories, differential vs reference make()"),
  "C03": ("stateful search: after every op of generated histories checkers()/pinned() are compared with their definition and the board with freshly built/parsed boards; commuting transposition pairs compared with ==.", REF, "stateful proptest (op sequences) with invariant after each step"),
  "C04": ("for each sampled board all 64x64x7 move values are put to is_legal and compared with the library's own generated set; exhaustive per board, boards sampled.", "trusts only the library's generator as the comparison side, as the property states; C01 ties that generator to the rules", "proptest boards x exhaustive move-value enumeration (differential is_legal vs generate_moves)"),
  "C05": ("exhaustive over every ray-subset occupancy per square and slider kind (3 settings of the other bits) and over every entry of the knight/king/pawn/ray/between/line tables and pawn-push settings, against an independent ray walker, in the magic and the PEXT build; random full occupancies on top. The 2^64 occupancy space itself is sampled.", "trusts the ray walker in harness/src/props/c05.rs as the geometric definition; independence of non-ray bits is sampled", "exhaustive enumeration + random occupancies vs independent ray walker, two back ends"),
- "C06": ("every board the harness obtains (builder on near-invalid edited states, parser on mutated strings, start constructors, play/null results) is judged by the reference structural check; positions reached by move-only histories from DFRC starts must re-enter via text and builder.", REF, "proptest (edited builder states, mutated FEN strings, histories) vs structural validity predicate; round-trip for acceptance"),
+ "C06": ("every board the harness obtains (builder on near-invalid edited states, parser on mutated strings, start constructors, play/null results, clock setters with every argument in the checked and the unchecked build) is judged by the reference structural check; every position reached by play from an accepted start must re-enter via text and builder.", REF, "proptest (edited builder states, mutated FEN strings, histories) vs structural validity predicate; round-trip for acceptance"),
  "C07": ("round trip and canonical-text checks on every visited board in both notations, pair checks (equality vs text equality), and reference-written canonical records parsed and re-formatted.", "trusts the reference formatter as the definition of the canonical record", "proptest round-trip + differential vs reference formatter"),
  "C08": ("totality (catch_unwind), structural strictness and faithful decoding on ~10^6 mutated/arbitrary strings per run through all three entry points; error attribution on labelled single-field corruptions of canonical records of accepted boards; thorough adds a coverage-guided libFuzzer campaign on the same oracle.", "trusts the tolerant reference decoder (digit 0, '+', leading zeros tolerated) and the corruption labels; no expectation for multi-defect strings", "proptest string mutation + labelled corruption generator, libFuzzer (thorough), vs reference decoder"),
  "C09": ("builder states (valid, edited, 3+ checkers) are rendered as Shredder records by the harness; build() and from_fen must agree on acceptance and give == boards; inexpressible states rejected; single-aspect corruptions must name the aspect; accepted boards round-trip through from_board.", REF, "proptest differential builder vs parser"),
@@ -18,7 +18,7 @@ C = {
  "C12": ("status() compared with the reference on every visited board, with mate/stalemate nets and clocks 98..100 generated on purpose.", REF, "proptest vs reference model"),
  "C13": ("same_position compared with the reference FIDE identity on generated pairs (clocks, EP cleared/moved, one feature changed, unrelated), with en-passant motifs including non-pawns on the capture square; reflexive/symmetric/transitive on the generated tuples.", REF, "proptest pair generation vs reference relation"),
  "C14": ("null_move compared with the reference on every visited board of histories interleaving null moves; result must be == a freshly built board.", REF, "stateful proptest vs reference model"),
- "C15": ("try_play on all 64x64x7 move values per sampled board vs reference legality, atomicity on failure, agreement with play_unchecked; play() panics exactly on illegal moves (sample).", REF, "proptest boards x exhaustive move-value enumeration vs reference"),
+ "C15": ("try_play on all 64x64x7 move values per sampled board vs reference legality, atomicity on failure, agreement with play_unchecked; play() panics exactly on illegal moves (sample), in the checked build and in the build without debug assertions.", REF, "proptest boards x exhaustive move-value enumeration vs reference"),
  "C16": ("masked generation vs reference legal moves filtered by origin for 12 mask families, batch count/non-emptiness, abort contract at every call index.", REF, "proptest (board, mask, abort point) vs reference"),
  "C17": ("pure-data search over (piece, origin, destination set, consumed count) with all 1344 membership queries per batch against a model enumeration.", "trusts the model enumeration written from the property statement", "proptest vs executable model"),
  "C18": ("set-algebra laws on generated pairs of 64-bit patterns against a BTreeSet model; complete subset enumeration for masks up to 14 bits.", "trusts BTreeSet as the set model", "proptest vs set model"),
@@ -52,11 +52,11 @@ m = {
     },
     "engines": [
         {"name": "vcheck", "path": "harness", "serves_properties": ids, "kind_free_text": "Rust harness (lib verif_core + bin vcheck): proptest strategies driven through TestRunner on 16 shards, exhaustive enumerations, mailbox reference chess model, replay codec; built in three configurations (checked, checked+pext, unchecked)"},
-        {"name": "fuzz", "path": "fuzz", "serves_properties": ["C08", "C19", "C20", "C01"], "kind_free_text": "cargo-fuzz/libFuzzer targets calling the same oracles (thorough tier only)"},
+        {"name": "fuzz", "path": "fuzz", "serves_properties": ["C01", "C02", "C03", "C06", "C08", "C09", "C10", "C12", "C14", "C19", "C20"], "kind_free_text": "cargo-fuzz/libFuzzer targets calling the same oracles (thorough tier only)"},
     ],
     "checks": checks,
     "not_applicable": [],
-    "notes": "Exit codes of every command: 0 held, 1 violation (with VIOLATION line and replay file), 2 infrastructure/inconclusive. known_findings.json lists eight defects, all repaired by fix: commits in /repo (status fixed, suppress nothing). regress/ holds their minimal cases, replayed at the start of every run.",
+    "notes": "Exit codes of every command: 0 held, 1 violation (with VIOLATION line and replay file), 2 infrastructure/inconclusive. known_findings.json lists eight defects, all repaired by fix: commits in /repo (status fixed, suppress nothing). regress/ holds their minimal cases, replayed at the start of every run. seeded/ holds 120 independently written breaking changes with what caught them; mutants/ holds 66 hand-written ones (DESIGN.md section 8).",
 }
 json.dump(m, open(os.path.join(ROOT, "MANIFEST.json"), "w"), indent=1)
 print("wrote MANIFEST.json with", len(checks), "checks")
